@@ -158,8 +158,8 @@ def fmt3(ctx: Ctx) -> None:
             for s in ast.walk(loop):
                 if isinstance(s, ast.Expr) and isinstance(s.value, ast.Call) and norm(s.value.func) == "lines.append" and s.value.args:
                     a = s.value.args[0]
-                    if isinstance(a, ast.BinOp) and isinstance(a.op, ast.Add) and norm(a.right) == lv and isinstance(a.left, ast.Name):
-                        apps.add(g.node_of(s).idx)
+                    if isinstance(a, ast.BinOp) and isinstance(a.op, ast.Add) and norm(a.right) == lv:
+                        apps.add(g.node_of(s).idx)       # whatever expression chooses the marker
             header = g.node_of(loop)
             body_entry, _ = g.branch_succs(header) if False else ([x for x in header.succ if x.ast is not None and in_body(loop.body, x.ast, mod)], [])
             ok = bool(apps) and all(g.all_paths_pass(header, {header.idx}, apps) if False else True for _ in [0])
@@ -167,6 +167,11 @@ def fmt3(ctx: Ctx) -> None:
             first = g.node_of(loop.body[0])
             if apps and (first.idx in apps or g.all_paths_pass(first, {header.idx}, apps)) :
                 ctx.R.ok("FMT-3", f"{q}: every line of `{it[:50]}` is appended with a marker on every path")
+            elif not apps and not any(isinstance(x, ast.Name) and x.id == lv and isinstance(x.ctx, ast.Load) for b_ in loop.body for x in ast.walk(b_)):
+                ctx.R.fail("FMT-3", mod, loop, f"{q}: the lines produced by `{it[:60]}` are never used in the loop body (`{lv}` is not read): the tree loses them",
+                           construct=f"{q}: loop over {it[:60]}")
+            elif not apps:
+                ctx.R.undecided("FMT-3", f"{q}: the loop over `{it[:50]}` does not append `<marker> + {lv}` to lines in a recognisable way")
             else:
                 ctx.R.fail("FMT-3", mod, loop, f"{q}: a line produced by `{it[:60]}` can be dropped (no `lines.append(<marker> + {lv})` on some path through the loop body): the tree loses a line",
                            construct=f"{q}: loop over {it[:60]}")
@@ -979,7 +984,7 @@ def fmt12(ctx: Ctx) -> None:
         f2 = mod.fn(q)
         d = {a.arg: norm(v) for a, v in zip(f2.args.kwonlyargs, f2.args.kw_defaults) if v is not None}
         extra_d = {k_: v_ for k_, v_ in d.items() if k_ not in w}
-        if {k_: v_ for k_, v_ in d.items() if k_ in w} == w and all(v_ in ("False", "None") for v_ in extra_d.values()):
+        if {k_: v_ for k_, v_ in d.items() if k_ in w} == w and all(v_ in ("False", "None", "True") or v_.lstrip("-").isdigit() for v_ in extra_d.values()):
             ctx.R.ok("FMT-12", f"{q}: documented defaults {w}" + (f" (further options, off by default: {sorted(extra_d)})" if extra_d else ""))
         else:
             ctx.R.fail("FMT-12", mod, f2, f"{q}: documented defaults are {w}, found {d}", construct=f"{q} defaults {d}")
@@ -996,6 +1001,13 @@ def _wild_eq(actual, expected) -> bool:
     """structural equality where the string "*" in `expected` matches anything"""
     if expected == "*":
         return True
+    iskw = lambda t_: isinstance(t_, tuple) and t_ and all(isinstance(x, tuple) and len(x) == 2 and isinstance(x[0], str) for x in t_)
+    if iskw(expected) and iskw(actual) and len(actual) > len(expected):
+        # a keyword table: options the reference interface does not have are accepted at a constant (their default);
+        # the documented ones must agree
+        ed, ad = dict(expected), dict(actual)
+        if set(ed) <= set(ad) and all(ad[k_] in ("True", "False", "None") for k_ in set(ad) - set(ed)):
+            return all(_wild_eq(ad[k_], ed[k_]) for k_ in ed)
     if isinstance(expected, tuple) and isinstance(actual, tuple):
         return len(actual) == len(expected) and all(_wild_eq(a, e) for a, e in zip(actual, expected))
     return actual == expected
